@@ -6,6 +6,30 @@ props = [json.loads(l) for l in open(os.path.join(ROOT, "properties.jsonl"))]
 
 # id -> (technique, level text, level note, design ref)
 CHECKS = {
+ "C01": ("differential testing against an independent reference tokenizer: bounded-exhaustive short strings from every tokenizer state + grammar/noise random generation (proptest-driven, shrinking)",
+         "html5ever's token stream is compared, after the normalisation the property states, with an independent character-at-a-time transcription of WHATWG 13.2.5 under the same start state, last-start-tag name and sink policy: exhaustively for all strings up to length 3 (thorough 4) over a 26-character alphabet from ~150 starts, length 4 (5) from the fragment-selectable states, plus random token soup. Exploration: held on all generated cases.",
+         "Trusted: harness/src/refimpl/tokenizer.rs as transcription of the standard; entity table from Python's html.entities.html5; cold starts asserted only for token-free states.",
+         "DESIGN.md 4 C01"),
+ "C03": ("metamorphic testing over generated chunk/suspend/inject schedules (every partition of short inputs + random schedules)",
+         "Token level: scheduled run == one-piece run over the effective stream for tokens, parse errors and line numbers; pause position and injection semantics at Script suspensions. Tree level: final tree and quirks mode equal. Exploration over all partitions of a ~3k pool of short inputs and random schedules.",
+         "Trusted: the comparison normal form (character fragments concatenated, line of last fragment kept).",
+         "DESIGN.md 4 C03"),
+ "C05": ("runtime contract monitoring (a validating model TreeSink) over grammar-generated HTML and XML inputs",
+         "Every TreeSink call made while parsing generated HTML documents/fragments and XML documents is validated against the documented contract before it is applied to a model DOM. Exploration.",
+         "Trusted: ModelDom (harness/src/sinks/model.rs) and its reading of the contract clauses.",
+         "DESIGN.md 4 C05"),
+ "C06": ("validity-predicate property test over grammar-generated documents and chunkings",
+         "The skeleton predicate (both directions) is evaluated on the final ModelDom and RcDom trees of generated documents biased to skeleton-relevant constructs and truncated inputs. Exploration.",
+         "'frameset optionally followed by noframes' read as zero or more noframes (the standard inserts every one).",
+         "DESIGN.md 4 C06"),
+ "C09": ("differential/invariant testing of reported line numbers against consumption positions of the reference tokenizer; exhaustive short strings x all partitions + random",
+         "For inputs on which html5ever and the reference tokenizer agree, every tag/comment/doctype/EOF token's line must equal 1 + line breaks consumed by the reference at emission; lines are monotone. Exhaustive over short strings from every tokenizer state with every chunk cut placement, plus random inputs with dense line breaks. Exploration.",
+         "Character and error tokens are only bracketed by monotonicity (their emission point involves look-ahead).",
+         "DESIGN.md 4 C09"),
+ "C14": ("exhaustive enumeration of the finite character-reference space against an independent entity table and the reference algorithm",
+         "All 2231 names x extensions/followers x 5 contexts, all numeric values 0..=0x110000 (canonical form; other forms on a stride in quick, all in thorough), overflow/edge forms, table identity, and xml5ever for ';'-terminated names.",
+         "Trusted: Python html.entities.html5 as the WHATWG table; refimpl character-reference algorithm.",
+         "DESIGN.md 4 C14"),
  "C10": ("bounded-exhaustive enumeration + random structured generation; differential against std lossy decode / encoding_rs one-shot decode",
          "Every byte string of length <=4 (thorough <=5) over the 25 UTF-8 boundary bytes under every chunk partition, plus random structured byte strings with random cut schedules, compared item-for-item (characters and error reports) with an independent whole-input decoder; the same for 40 encoding_rs encodings and for parser trees via from_utf8(). Exploration: held on all generated cases, no claim beyond them.",
          "Trusted: std::str::Utf8Chunks/from_utf8_lossy and encoding_rs one-shot decode as reference decoders; the harness's recording TendrilSink.",
